@@ -146,6 +146,13 @@ class SweepSetter(SetterEffects):
         delegated = [p for k, p in events if (k == "setattr" and p["target"] == "self") or (k == "mutate" and p["target"].startswith("self._"))]
         ctx.oblige("a-successful-assignment-stores-and-persists-the-value", bool(writes) or (bool(delegated) and bool(persists)), kind=kind, note=f"normal return without storing {field}")
         if not writes:
+            # ... and what it stores directly on the way is not the backing field of some *other* attribute of the class
+            # (delegation goes through that attribute's own setter, or through the metadata)
+            strays = set()
+            for sub in self.concrete_classes():
+                fields = {"_" + a for a in (getattr(sub, "_attribute_map", {}) or {}).values()}
+                strays |= {p["name"] for k, p in events if k == "setattr" and p["target"] == "self" and p["name"] in fields and p["name"] != field and ".fetch_" not in p.get("value_tag", "")}
+            ctx.oblige("the-value-is-not-stored-in-another-attributes-field-instead", not strays, kind=kind, note=f"assigning {self.attr} stored {sorted(strays)} and never {field}")
             return
         last = writes[-1]
         after = [(j, g) for j, g in persists if j > last]
